@@ -859,9 +859,10 @@ def shrink_rule(ctx, rep, cls, field, rule, what):
                 r = q.recv(e)
                 if e.fn is m and q.call_name(e) in ("remove", "pop", "popleft", "clear", "discard") and isinstance(r, tuple) and r[0] == "attr" and r[2] == field and r[1] == SELF:
                     sites.add(e.node.lineno)
-            for e in p.evs("del"):
+            for e in p.evs("del") + p.evs("store"):
                 t = e.d["target"]
-                if isinstance(t, tuple) and t[0] == "sub" and t[1] == ("attr", SELF, field):
+                # del xs[i]  /  xs[:] = <filtered>  /  xs[i:j] = ...  : the list object itself loses entries
+                if isinstance(t, tuple) and t[0] == "sub" and t[1] == ("attr", SELF, field) and (e.kind == "del" or (isinstance(t[2], tuple) and t[2][0] == "slice")):
                     sites.add(e.node.lineno)
         nin += len(sites)
     if nin:
